@@ -357,3 +357,29 @@ def register(M):
     M('C17_abi', ['C17'], 'utils/util_import.py',
       "    if '.' in modname:\n        modname, abi_tag = modname.split('.', 1)\n", "",
       'ABI tag of extension modules not removed from the module name')
+
+    # ---- C08 ---------------------------------------------------------------
+    M('E4', ['C08'], 'doctest_example.py',
+      "                            found_lineno = sub_tb.tb_lineno\n                            break\n",
+      "                            found_lineno = sub_tb.tb_lineno\n",
+      'traceback search keeps the last (innermost) doctest frame')
+    M('C08_body', ['C08'], 'core.py',
+      "        body_lineno = label_lineno + 1\n", "        body_lineno = label_lineno\n",
+      'google block body located on the tag line')
+    M('C08_unoffset', ['C08'], 'core.py',
+      "        for p in parts:\n            p.line_offset -= unoffset\n", "        for p in parts[:1]:\n            p.line_offset -= unoffset\n",
+      'freeform rebasing of part offsets applied to the first part only')
+    M('C08_curr', ['C08'], 'core.py',
+      "                if not curr_parts:\n                    curr_offset += part.count('\\n') + 1",
+      "                if not curr_parts:\n                    curr_offset += part.count('\\n')",
+      'leading text of a freeform docstring counted one line short')
+    M('C08_F5', ['C08'], 'static_analysis.py',
+      "        if hasattr(docnode, 'end_lineno') and PLAT_IMPL != 'PyPy':", "        if False:",
+      'reverse of fix F5 (docstring start reconstructed from its end)')
+    M('C08_goffset', ['C08'], 'docstr/docscrape_google.py',
+      "        if len(lines) == 0 or (len(lines) == 1 and len(lines[0]) == 0):\n            line_offset += len(lines)\n            continue",
+      "        if len(lines) == 0 or (len(lines) == 1 and len(lines[0]) == 0):\n            continue",
+      'empty groups between google blocks no longer advance the line offset')
+    M('C08_nexec', ['C08'], 'doctest_part.py',
+      "        return len(self.exec_lines)\n", "        return len([ln for ln in self.exec_lines if ln.strip()])\n",
+      'n_exec_lines ignores blank source lines of the part')
